@@ -32,6 +32,14 @@ var VerifRoot = func() string {
 	return "/verif"
 }()
 
+// OutRoot is where evidence/ and evidence/replay/ are written (VERIF_OUT overrides; used by mutant self-tests).
+var OutRoot = func() string {
+	if v := os.Getenv("VERIF_OUT"); v != "" {
+		return v
+	}
+	return VerifRoot
+}()
+
 type knownEntry struct {
 	Property string `json:"property"`
 	Key      string `json:"key"`
@@ -225,7 +233,7 @@ func (c *Ctx) Fail(key, what string, replay any) {
 	if c.violKeys[key] > 3 || len(c.violations) >= 40 {
 		return // keep at most 3 replays per key
 	}
-	dir := filepath.Join(VerifRoot, "evidence", "replay")
+	dir := filepath.Join(OutRoot, "evidence", "replay")
 	os.MkdirAll(dir, 0o755)
 	name := fmt.Sprintf("%s-%s-%d-%d.json", c.ID, sanitize(key), c.Seed, c.violKeys[key])
 	p := filepath.Join(dir, name)
@@ -266,9 +274,13 @@ func (c *Ctx) TempDir(name string) string {
 
 func loadKnown() map[string]knownEntry {
 	m := map[string]knownEntry{}
-	b, err := os.ReadFile(filepath.Join(VerifRoot, "known-findings.jsonl"))
-	if err != nil {
-		return m
+	b, _ := os.ReadFile(filepath.Join(VerifRoot, "known-findings.jsonl"))
+	// staging area used while checks are being built; merged into known-findings.jsonl
+	extra, _ := filepath.Glob(filepath.Join(VerifRoot, "known-findings.d", "*.jsonl"))
+	for _, f := range extra {
+		if eb, err := os.ReadFile(f); err == nil {
+			b = append(append(b, '\n'), eb...)
+		}
 	}
 	for _, ln := range strings.Split(string(b), "\n") {
 		ln = strings.TrimSpace(ln)
@@ -460,8 +472,8 @@ func (c *Ctx) finish() int {
 	if c.ReplayKey == "" {
 		b, err := json.MarshalIndent(ev, "", " ")
 		if err == nil {
-			os.MkdirAll(filepath.Join(VerifRoot, "evidence"), 0o755)
-			err = os.WriteFile(filepath.Join(VerifRoot, "evidence", c.ID+".json"), append(b, '\n'), 0o644)
+			os.MkdirAll(filepath.Join(OutRoot, "evidence"), 0o755)
+			err = os.WriteFile(filepath.Join(OutRoot, "evidence", c.ID+".json"), append(b, '\n'), 0o644)
 		}
 		if err != nil {
 			fmt.Printf("BROKEN property=%s cannot write evidence: %v\n", c.ID, err)
